@@ -339,3 +339,12 @@ func ParallelFor(n, w int, f func(i int)) {
 	close(ch)
 	wg.Wait()
 }
+
+// RepoDir is the tree under test: /repo, or $VERIF_REPO when a scratch worktree
+// is being checked (development aid; the registered commands never set it).
+func RepoDir() string {
+	if d := os.Getenv("VERIF_REPO"); d != "" {
+		return d
+	}
+	return "/repo"
+}
